@@ -519,9 +519,10 @@ with repair (fuel : nat) (stk : list node) (c : caller) (n : node) (s : state)
     | None => Panic 2
     | Some i =>
       match c with
-      | CBPP => execute f stk c n true (fr_clear empty_frame) s
       | _ =>
-        let pedantic := match c with CQuery _ _ pd _ => pd | _ => false end in
+        (* a backward projection propagation checks every dependency, dirty or not; it does not
+           recompute outright (CallerInformation::pedantic_repair) *)
+        let pedantic := match c with CQuery _ _ pd _ => pd | CBPP => true | _ => false end in
         (* check_callee for every forward edge, in order; stop at the first Recompute *)
         let* (d, fr1, marks, s1) :=
           (fix walk (cs : list node) (rtfc : bool) (cleaned : list node) (fr : frame) (ms : list node) (s : state)
